@@ -488,6 +488,111 @@ def r03_12(run, model):
                witness="struct Account { id: int32, owner: string, active: bool }: Account { owner: \"ann\", active: true, id: 7 } becomes Account(\"ann\", true, 7) in every IR")
 
 
+# arity evidence for zips whose guard is written on an alias of an operand (confirmed by reading; the regex must occur in the function)
+ZIP_GUARDS = {
+    ("check_expr", "items", "expected_elem_tys"): r"typs\.len\(\)==items\.len\(\)",
+    ("infer_constructor_expr", "args", "param_tys"): r"expected_arity!=args\.len\(\)",
+    ("check_pat_tuple", "pats", "expected_elem_tys"): r"typs\.len\(\)==pats\.len\(\)",
+    ("instantiate_struct_field_ty", "struct_def", "type_args"): r"struct_def\.generics\.len\(\)!=type_args\.len\(\)",
+}
+
+
+def r03_13(run, model):
+    run.rule("R03.13", "two lists are only zipped after their lengths were compared: every `.zip(` in the typer that pairs expressions/patterns/"
+                       "parameters with types is covered by an arity test on the same operands (same condition, an earlier rejecting test, "
+                       "or the recorded alias guard) - zip silently drops the surplus of the longer list")
+    n = 0
+    for rel in ("crates/compiler/src/typer/check.rs", "crates/compiler/src/typer/unify.rs", "crates/compiler/src/typer/toplevel.rs", "crates/compiler/src/typer/util.rs"):
+        for f in model.fns(rel):
+            if f.body is None:
+                continue
+            ft = None
+            for c in S.walk(f.body):
+                if c["k"] != "MethodCall" or c["method"] != "zip" or not c["args"]:
+                    continue
+
+                def root(e):
+                    while e["k"] == "MethodCall":
+                        e = e["recv"]
+                    while e["k"] == "Field":
+                        e = e["base"]
+                    return S.norm_ws(run.facts.text(rel, e["sp"]))
+                a, b = root(c["recv"]), root(c["args"][0])
+                if ft is None:
+                    ft = S.norm_ws(run.facts.text(rel, f.body["sp"]))
+                n += 1
+                p1, p2 = re.escape(a) + r"(\.\w+)*\.len\(\)", re.escape(b) + r"(\.\w+)*\.len\(\)"
+                auto = re.search(r"[^;{}]*" + p1 + r"[^;{}]*" + p2 + r"[^;{}]*|[^;{}]*" + p2 + r"[^;{}]*" + p1 + r"[^;{}]*", ft)
+                tab = ZIP_GUARDS.get((f.name, a, b))
+                ok = auto is not None or (tab is not None and re.search(tab, ft) is not None)
+                run.ob("R03.13", f"{f.name}|zip({a}, {b}) after an arity test", ok, site(rel, c["sp"]),
+                       ("arity test `" + auto.group(0)[-60:] + "`") if auto else (f"recorded alias guard /{tab}/ " + ("present" if ok else "MISSING") if tab else "no arity test on these operands found"),
+                       witness="let t: (int32, int32) = (1, 2, true) is accepted: the third component is never checked, Core carries a 3-component ETuple typed as a 2-tuple")
+    run.floor("zips in the typer", n, 10)
+
+
+INFER_LEDGER = {("infer_block_exprs", "tast_expr"): "statements of a block: only the last one determines the block's type (read through the vector)"}
+
+
+def r03_14(run, model):
+    run.rule("R03.14", "the type of every child inferred in inference mode is consulted: a local bound from `self.infer_expr(..)` has its "
+                       "`get_ty()` read at least once (a constraint, a result type, an argument) - a child whose type is never read is "
+                       "never related to anything (copy/paste slip: then_tast constrained twice, else_tast never)")
+    CHECK = "crates/compiler/src/typer/check.rs"
+    n = 0
+    for f in model.fns(CHECK):
+        if f.body is None:
+            continue
+        for l in S.find(f.body, "Local"):
+            if l["pat"]["k"] != "PIdent" or l.get("init") is None:
+                continue
+            init = l["init"]
+            if not (init["k"] == "MethodCall" and init["method"] == "infer_expr"):
+                continue
+            name = l["pat"]["name"]
+            n += 1
+            uses = [x for x in S.walk(f.body) if x["k"] == "MethodCall" and x["method"] == "get_ty" and S.is_path(x["recv"], name)]
+            led = INFER_LEDGER.get((f.name, name))
+            run.ob("R03.14", f"{f.name}|type of `{name}` is consulted", bool(uses) or led is not None, site(CHECK, l["sp"]),
+                   f"{len(uses)} reads of {name}.get_ty()" + (f"; ledger: {led}" if led and not uses else ""),
+                   witness="let v = if c { 1 } else { \"one\" }; is accepted: Core has EIf{ty:int32, then:int32, else:string}")
+    run.floor("children inferred in inference mode", n, 20)
+
+
+def r03_15(run, model):
+    run.rule("R03.15", "builtin operators restrict their operands: for arithmetic, comparison and negation the typer generates more than "
+                       "equalities among operand and result types (a numeric/overload constraint or a check of the resolved type); a "
+                       "constraint whose two sides are the same expression constrains nothing")
+    CHECK = "crates/compiler/src/typer/check.rs"
+    n = 0
+    for fname, ops in (("infer_unary_expr", ("Neg",)), ("infer_binary_expr", ("Add", "Sub", "Mul", "Div", "Less", "Greater", "LessEq", "GreaterEq"))):
+        f = model.fn(fname, CHECK, impl="Typer")
+        # tautologies
+        for c in S.walk(f.body):
+            if c["k"] == "Call" and S.callee_name(c) == "TypeEqual" and len(c["args"]) == 2:
+                a, b = (S.norm_ws(run.facts.text(CHECK, x["sp"])) for x in c["args"])
+                if a == b:
+                    n += 1
+                    run.ob("R03.15", f"{fname}|constraint TypeEqual({a}, {b}) relates two things", False, site(CHECK, c["sp"]),
+                           "both sides are the same expression: the operand type is unconstrained",
+                           witness="let q = -p; with p: P (a struct) is accepted; the Go has `var q P = -p`")
+        for m in S.find(f.body, "Match"):
+            for arm in m["arms"]:
+                pt = S.norm_ws(run.facts.text(CHECK, arm["pat"]["sp"]))
+                hit = [o for o in ops if re.search(r"(Unary|Binary)Op::" + o + r"\b", pt)]
+                if not hit:
+                    continue
+                kinds = sorted({S.callee_name(c) for c in S.walk(arm["body"]) if c["k"] == "Call" and "Constraint" in (c["func"].get("segs") or [])})
+                if not kinds and not any(True for _ in S.calls(arm["body"], "push_constraint")):
+                    continue  # e.g. the match that only picks the result type
+                n += 1
+                ok = any(k not in ("TypeEqual",) for k in kinds) or any(re.search(r"numeric|is_integer|is_float|arith", S.callee_name(c) or "", re.I) for c in S.calls(arm["body"]))
+                run.ob("R03.15", f"{fname}|{'/'.join(hit)} restricts the operand type", ok, site(CHECK, arm["sp"]),
+                       f"constraints generated: {kinds or 'none'}",
+                       witness="let q = p * p; (p: struct), true + false, p < p are accepted; the emitted Go is rejected by the Go compiler")
+    run.floor("operator arms of the typer", n, 3)
+
+
 def strip_callee(c):
     return re.sub(r"<[^<>]*>", "", c).split("::")[-1]
 
@@ -503,6 +608,9 @@ def run(run, model):
     run.try_rule(r03_10, model)
     run.try_rule(r03_11, model)
     run.try_rule(r03_12, model)
+    run.try_rule(r03_13, model)
+    run.try_rule(r03_14, model)
+    run.try_rule(r03_15, model)
     run.try_rule(c07.r07_4, model)
     run.try_rule(c07.r07_2, model, None, "C03")
     from rules import c08
